@@ -55,7 +55,7 @@ import weakref
 from mc import env  # noqa: F401  (binds desper to the tree under test)
 from mc import kernel
 from mc.canon import canon, CanonError
-from mc.report import Violation, HarnessError
+from mc.report import Violation, HarnessError, Lookalike
 
 import desper
 from desper.model.world import object_from_string
@@ -315,7 +315,7 @@ MAKERS = {
 }
 
 
-class LoadFailed(Exception):
+class LoadFailed(Lookalike):
     """What the raise_first loader raises (takes one message, like the
     OSError / ValueError of a real file loader)."""
 
